@@ -124,18 +124,18 @@ def choose_action(rng, w, focus, budget):
         if op == "iop" and len(O) < MAXOBJ:
             o = rng.randrange(len(O)) + 1
             rhs = rng.choice([0] + list(range(1, len(O) + 1)))
+            if isinstance(O[o - 1], V) and rng.random() < 0.15:
+                rhs = -(rng.randrange(O[o - 1].nvec) + 1)          # one of x's own components
             f = rng.choice(["add", "sub", "mul", "div"])
             if f in ("mul", "div"):
                 if budget["muldiv"] <= 0:
                     continue
             x = O[o - 1]
-            y = O[rhs - 1] if rhs else None
+            y = O[rhs - 1] if rhs > 0 else (getattr(x, "xyz"[-rhs - 1]) if rhs < 0 else None)
             if str(x.dtype) == "float32" or (y is not None and str(y.dtype) == "float32"):
                 continue                      # float32 rounding cannot be recovered as exact rationals for the trace; covered by the S->C replay
             if not isinstance(x, V) and isinstance(y, V):
                 continue                      # Array op= Vector falls back to Vector.__r*__: not covered by C17
-            if isinstance(x, V) and rhs and rhs != o and w._shares_with(x, y):
-                continue                      # component order would matter
             if x.dtype.kind != "f":
                 if f == "div" or (y is not None and y.dtype.kind != "i"):
                     continue                  # result not representable in x's dtype
@@ -147,7 +147,7 @@ def choose_action(rng, w, focus, budget):
                     continue
             if f in ("mul", "div"):
                 budget["muldiv"] -= 1
-            return {"op": "iop", "f": f, "o": o, "rhs": rhs, "q": bool(y is not None and not isinstance(y, V) and rng.random() < 0.3)}
+            return {"op": "iop", "f": f, "o": o, "rhs": rhs, "q": bool(rhs > 0 and not isinstance(y, V) and rng.random() < 0.3)}
         if op == "eq":
             return {"op": "eq", "g": g, "h": rng.randrange(len(G)) + 1}
         d = rng.randrange(len(D)) + 1
